@@ -279,6 +279,72 @@ def _gen_variants(rng, gene, contig_seq, opts):
             taken.append((g, g + d + 2))
             gene["cis_pair"] = ids
             break
+    # two catalogued variants a few bases apart (or touching): indel + indel, substitution on the base an
+    # insertion is anchored to / next to a deletion, adjacent substitutions
+    if opts.get("close_pair"):
+        kind = opts["close_pair"]
+        for _ in range(600):
+            _, ra, rb = rng.choice(inner)
+            if rb - ra < 40:
+                continue
+            g = rng.randint(ra + 8, rb - 28)
+            if not clear(g - 2, g + 18):
+                continue
+            d = rng.randint(1, 8)
+            x, y = rand_seq(rng, rng.randint(1, 3)), rand_seq(rng, rng.randint(1, 3))
+            k1, k2 = rng.randint(1, 3), rng.randint(1, 3)
+
+            def ins_ok(gg, alt, left=None, right=None):
+                lf, rt = left or seq[gg], right or seq[gg + 1]
+                return alt[-1] != lf and alt[0] != rt and alt[-1] != seq[gg] and alt[0] != seq[gg + 1]
+
+            def del_ok(gg, k):
+                return seq[gg - 1] != seq[gg + k - 1] and seq[gg] != seq[gg + k]
+
+            def snp(gg):
+                return {"kind": "snp", "g": gg, "ref": seq[gg], "alt": rng.choice([c for c in "ACGT" if c != seq[gg]])}
+
+            pair = None
+            if kind == "ins_ins" and ins_ok(g, x) and ins_ok(g + d, y):
+                pair = [{"kind": "ins", "g": g, "ref": "", "alt": x}, {"kind": "ins", "g": g + d, "ref": "", "alt": y}]
+            elif kind == "del_del" and del_ok(g, k1) and del_ok(g + k1 + d, k2):
+                pair = [{"kind": "del", "g": g, "ref": "".join(seq[g: g + k1]), "alt": ""},
+                        {"kind": "del", "g": g + k1 + d, "ref": "".join(seq[g + k1 + d: g + k1 + d + k2]), "alt": ""}]
+            elif kind == "ins_del" and ins_ok(g, x) and del_ok(g + 1 + d, k2):
+                pair = [{"kind": "ins", "g": g, "ref": "", "alt": x},
+                        {"kind": "del", "g": g + 1 + d, "ref": "".join(seq[g + 1 + d: g + 1 + d + k2]), "alt": ""}]
+            elif kind == "del_ins" and del_ok(g, k1) and ins_ok(g + k1 + d, y):
+                pair = [{"kind": "del", "g": g, "ref": "".join(seq[g: g + k1]), "alt": ""},
+                        {"kind": "ins", "g": g + k1 + d, "ref": "", "alt": y}]
+            elif kind == "snp_ins_anchor":
+                sv = snp(g)
+                if ins_ok(g, x, left=sv["alt"]):
+                    pair = [{"kind": "ins", "g": g, "ref": "", "alt": x}, sv]
+            elif kind == "snp_after_ins":
+                sv = snp(g + 1)
+                if ins_ok(g, x, right=sv["alt"]):
+                    pair = [{"kind": "ins", "g": g, "ref": "", "alt": x}, sv]
+            elif kind == "snp_before_del" and del_ok(g, k1):
+                sv = snp(g - 1)
+                if sv["alt"] != seq[g + k1 - 1]:
+                    pair = [{"kind": "del", "g": g, "ref": "".join(seq[g: g + k1]), "alt": ""}, sv]
+            elif kind == "snp_after_del" and del_ok(g, k1):
+                sv = snp(g + k1)
+                if sv["alt"] != seq[g]:
+                    pair = [{"kind": "del", "g": g, "ref": "".join(seq[g: g + k1]), "alt": ""}, sv]
+            elif kind == "snp_snp":
+                pair = [snp(g), snp(g + rng.choice([1, 1, 2]))]
+            if not pair:
+                continue
+            ids = []
+            for w, func in zip(pair, (True, rng.random() < 0.5)):
+                vid = max([int(k[1:]) for k in gene["variants"]] + [0]) + 1
+                gene["variants"][f"v{vid}"] = dict(w, id=f"v{vid}", region=_region_of(gene, w["g"]), func=func, rsid="-")
+                ids.append(f"v{vid}")
+            taken.append((g - 2, g + 18))
+            gene["cis_pair"] = ids
+            gene["close_kind"] = kind
+            break
 
 
 def _gen_alleles(rng, gene, opts):
@@ -367,6 +433,14 @@ def _gen_alleles(rng, gene, opts):
             alleles.append({"name": f"{num}.001", "kind": "normal", "vars": [a, b]})
             alleles.append({"name": f"{num}.002", "kind": "normal", "vars": [a]})
             num += 1
+        if gene.get("close_kind"):
+            # the second variant on its own as well
+            if vs[b]["func"]:
+                alleles.append({"name": f"{num}.001", "kind": "normal", "vars": [b]})
+                num += 1
+            else:
+                n1 = sum(1 for x in alleles if x["name"].startswith("1."))
+                alleles.append({"name": f"1.{n1 + 1:03d}", "kind": "normal", "vars": [b]})
     rnames = [r[0] for r in gene["regions"]]
     inner = rnames[1:-1]
     if opts.get("deletion"):
@@ -390,9 +464,10 @@ def _gen_alleles(rng, gene, opts):
     for a in alleles:
         seen_pos, keep = set(), []
         for v in a["vars"]:
-            if vs[v]["g"] in seen_pos:
+            site = (vs[v]["g"], vs[v]["kind"] == "ins")
+            if site in seen_pos:
                 continue
-            seen_pos.add(vs[v]["g"])
+            seen_pos.add(site)
             keep.append(v)
         a["vars"] = keep
     # ... which may have made two alleles identical: keep the first of each variant set
@@ -631,7 +706,7 @@ def unit_variants(gene, unit):
 def _haplotype(contig, z0, z1, variants):
     """Columns of a haplotype over reference [z0, z1): list of (base, refpos|-1)."""
     cols = []
-    ev = sorted(variants, key=lambda v: v["g"])
+    ev = sorted(variants, key=lambda v: (v["g"], v["kind"] == "ins"))
     i = z0
     for v in ev:
         g = v["g"]
